@@ -51,8 +51,8 @@ TRAVERSAL_EXCEPTIONS = {
 
 
 def _traversals(ctx) -> List[Tuple[Func, str]]:
-    """Hand-written AST traversals of the compiler: functions with an isinstance chain on their
-    first parameter that recurse into themselves."""
+    """Hand-written AST traversals / child enumerators of the compiler: functions with an isinstance chain
+    on their first parameter that fall back to the generic `param.__dict__` walk."""
     comp = ctx.tree.class_named("Compiler")
     out = []
     for f in ctx.tree.funcs:
@@ -64,11 +64,18 @@ def _traversals(ctx) -> List[Tuple[Func, str]]:
         if not params:
             continue
         var = params[0]
-        rec = any(isinstance(n, ast.Call) and ((isinstance(n.func, ast.Name) and n.func.id == f.name) or (isinstance(n.func, ast.Attribute) and n.func.attr == f.name)) for n in f.own_nodes())
+        generic = any(isinstance(n, ast.Attribute) and n.attr == "__dict__" and isinstance(n.value, ast.Name) and n.value.id == var for n in f.own_nodes())
         has_chain = any(isinstance(n, ast.If) and emit._isinstance_classes(n.test, var) for n in f.own_nodes())
-        if rec and has_chain:
+        # traversals that delegate the generic walk to an enumerator still special-case classes themselves
+        delegates = any(isinstance(n, ast.Call) and isinstance(n.func, ast.Attribute) and n.func.attr.endswith("children") for n in f.own_nodes())
+        if has_chain and (generic or delegates):
             out.append((f, var))
     return out
+
+
+# child fields that hold a *name* (not a reference) unless the node is computed: the only legitimate
+# reason to skip them is `not <node>.computed`
+NAME_UNLESS_COMPUTED = {("MemberExpression", "property"), ("Property", "key")}
 
 
 def rule_traversal_completeness(ctx, rep, rid: str) -> None:
@@ -97,6 +104,12 @@ def rule_traversal_completeness(ctx, rep, rid: str) -> None:
                     if not re.search(rf"\b{var}\.{field}\b", body_txt):
                         rep.bad(rid, key, f"{f.qual} special-cases {cls} but never visits {cls}.{field}: a closure written there is invisible to the capture analysis (its variables are not shared by reference)", f"{f.module.rel}:{n.lineno}")
                         continue
+                    if (cls, field) in NAME_UNLESS_COMPUTED:
+                        # visited conditionally: the condition must be about `.computed`, nothing else
+                        cond = [norm(x.test) for s2 in n.body for x in ast.walk(s2) if isinstance(x, ast.If) and re.search(rf"\b{var}\.{field}\b", norm(x.test))]
+                        if cond and not any("computed" in c for c in cond) and "computed" not in body_txt:
+                            rep.bad(rid, key + ":conditional", f"{f.qual} visits {cls}.{field} only when `{cond[0]}`: a computed access such as a[i] or {{[k]: v}} whose key is a plain identifier is skipped, so a variable used only that way is not seen as referenced (it is captured by value instead of by reference)", f"{f.module.rel}:{n.lineno}")
+                            continue
                     # element-wise manual iteration: for X in node.F: ... X.sub ...
                     elem_cls = [c for c in re.findall(r"[A-Za-z_]+", ann) if c in schema and c not in ("Node",)]
                     bad_sub = None
